@@ -2,9 +2,9 @@ package e2
 
 import (
 	"bytes"
-	"os"
 	"encoding/json"
 	"fmt"
+	"os"
 	"regexp"
 	"runtime/debug"
 	"strings"
